@@ -89,6 +89,42 @@ fn eval_case(c: &Value) -> (Value, Vec<String>) {
                         }
                         (cfg, res)
                     });
+                    // the same builder object used for several objects with the settings changed in between (budget lowered,
+                    // raised, restored): what it derives must depend on its current settings only
+                    if f <= 16 * 1024 {
+                        let d3 = data.clone();
+                        let hist = catch(move || {
+                            // three histories on one builder each: budget ending with a decrease, ending with an increase,
+                            // and the packet size changed and restored; all end on (p, ws)
+                            let mut lasts = vec![];
+                            for hist in [[(p, ws / 4), (p, ws / 2), (p, ws.saturating_mul(2)), (p, ws)],
+                                         [(p, ws.saturating_mul(2)), (p, ws / 4), (p, ws / 2), (p, ws)],
+                                         [(p, ws), (p / 2, ws), (p.saturating_add(p / 2), ws), (p, ws)]] {
+                                let mut b = raptorq::EncoderBuilder::new();
+                                let mut last = None;
+                                for (pp, w) in hist {
+                                    b.set_max_packet_size(pp);
+                                    b.set_decoder_memory_requirement(w);
+                                    let bb = std::panic::AssertUnwindSafe(&b);
+                                    let d = &d3;
+                                    last = std::panic::catch_unwind(move || bb.build(d).get_config()).ok();
+                                }
+                                lasts.push(last);
+                            }
+                            lasts
+                        });
+                        match hist {
+                            Ok(lasts) => {
+                                for (hi, l) in lasts.iter().enumerate() {
+                                    match l {
+                                        Some(cfg) => if !same(cfg) { mism.push(format!("EncoderBuilder reused with changed settings (history {hi}) derives parameters that differ from RFC 6330 4.3 for its current settings")); },
+                                        None => mism.push(format!("EncoderBuilder reused with changed settings (history {hi}) panicked on the last (valid) setting")),
+                                    }
+                                }
+                            }
+                            Err(m) => mism.push(format!("EncoderBuilder history route panicked: {m}")),
+                        }
+                    }
                     match rt {
                         Ok((cfg, res)) => {
                             if !same(&cfg) { mism.push("EncoderBuilder config differs from RFC 6330 4.3".into()); }
@@ -166,6 +202,22 @@ fn eval_case(c: &Value) -> (Value, Vec<String>) {
                     if ser != bytes_of(&c["bytes"]) { mism.push("packet bytes differ from RFC 6330 4.4.2".into()); }
                     let de = raptorq::EncodingPacket::deserialize(&ser);
                     if de != pk || de.data() != &payload[..] || de.payload_id().encoding_symbol_id() != esi { mism.push("packet does not round-trip".into()); }
+                }
+                "pktlong" => {
+                    let (sbn, esi) = (c["sbn"].as_u64().unwrap() as u8, c["esi"].as_u64().unwrap() as u32);
+                    let len = c["len"].as_u64().unwrap() as usize;
+                    let payload: Vec<u8> = (1..=len).map(|i| ((i * 37 + len) % 256) as u8).collect();
+                    let pk = raptorq::EncodingPacket::new(raptorq::PayloadId::new(sbn, esi), payload.clone());
+                    let ser = pk.serialize();
+                    got = json!({"ser_len": ser.len(), "head": ser[..4.min(ser.len())].to_vec()});
+                    if ser.len() != c["total"].as_u64().unwrap() as usize || ser[..4] != bytes_of(&c["head"])[..] || ser[4..] != payload[..] {
+                        mism.push("packet bytes differ from RFC 6330 4.4.2 (long payload)".into());
+                    }
+                    let de = raptorq::EncodingPacket::deserialize(&ser);
+                    if de != pk || de.data() != &payload[..] || de.payload_id().encoding_symbol_id() != esi || de.payload_id().source_block_number() != sbn {
+                        mism.push(format!("packet with a payload of {len} octets does not round-trip (parsed payload: {} octets)", de.data().len()));
+                    }
+                    if de.serialize() != ser { mism.push("re-serialising the parsed long packet does not reproduce the buffer".into()); }
                 }
                 other => panic!("unknown wire case {other}"),
             }
